@@ -21,7 +21,7 @@ ASSUMPTIONS = ['H_divsteps_done (iterations() trips reach g = 0) is exercised, n
                'ConstMontyForm is exercised for six compile-time moduli only (harness/src/ops/c10.rs CM0..CM5)',
                'c10.hook.* lines call the safegcd building blocks (inv_mod2_62, iterations, jump, fg, de, divsteps(_vartime), the UnsatInt / BoxedUnsatInt conversions and arithmetic, inverter fields, norm) on plain limb lists through crypto_bigint::verif_hooks; jump only with f odd (or f even, g odd, delta > 0) and |delta| <= 2^63 - 64, de only with |t_i0| + |t_i1| <= 2^62, mul never by i64::MIN, add / neg / leading_zeros only where no u64 operation overflows: elsewhere the crate loops forever or the two build profiles differ by an overflow trap']
 
-FIXED = [1, 2, 3, 4, 6, 8, 16, 32]
+FIXED = [1, 2, 3, 4, 6, 8, 16, 32]          # + 5, 7 in odd_width_lines (harness: fixed5 = U320, fixed7 = U448)
 
 CONST_MODULI = [
     (1, 0xffffffffffffffff),
@@ -378,7 +378,10 @@ def gen(tier, rng):
     # crate-internal safegcd building blocks (verif_hooks): own PRNG stream, emitted after the (unchanged) public lines
     hooks = hook_lines(tier, random.Random(rng.getrandbits(32)))
     random.Random(1).shuffle(hooks)
-    return lines + hooks
+    # widths that are not a power of two, k in the top quarter (own PRNG stream, after everything else)
+    odd = odd_width_lines(tier, random.Random(rng.getrandbits(32)))
+    random.Random(2).shuffle(odd)
+    return lines + hooks + odd
 
 
 
@@ -453,6 +456,49 @@ def hook_matrices(rng, fs, gs):
         d, t = py_jump(rng.choice(fs) | 1, rng.choice(gs), rng.choice([1, 0, -1, 2, -3, 7, 62, -62]))
         ms.append(t)
     return ms
+
+
+def odd_width_lines(tier, rng):
+    """widths that are not a power of two (3, 5, 6, 7 limbs): inv_mod2k / inv_mod2k_vartime with k concentrated in the top
+    quarter of the width (a doubling / Hensel-lifting rewrite with one round too few is wrong only for
+    k > 3·2^(floor(log2 BITS) - 1), i.e. only there), and Uint::inv_mod with even moduli s·2^k for such k."""
+    q = tier == 'quick'
+    L = []
+    out = L.append
+    for n in (3, 5, 6, 7):
+        w = 64 * n
+        ks = {w, w - 1, w - 2, w - 63, w - 64, w - 65, 3 * w // 4, 3 * w // 4 + 1} | {rng.randrange(3 * w // 4 + 1, w + 1) for _ in range(12 if q else 60)}
+        if n in (5, 7):                                   # these widths have no lines in the main family
+            ks |= {0, 1, 2, 63, 64, 65, 128, w // 2} | {rng.randrange(w + 1) for _ in range(6 if q else 40)}
+        if not q:
+            ks |= set(range(w - 64, w + 1))
+        for k in sorted(ks):
+            vals = [rng.getrandbits(w) | 1, value(rng, n) | 1, (1 << w) - 1, rng.choice([1, 3, value(rng, n), 0, 2])]
+            for a in vals:
+                out(f"c10.u.inv_mod2k {n} {hx(a)} {k}")
+                out(f"c10.u.inv_mod2k_vartime {n} {hx(a)} {k}")
+        for k in (w + 1, w + 64, 2 * w):
+            a = rng.getrandbits(w) | 1
+            out(f"c10.u.inv_mod2k {n} {hx(a)} {k}")
+            out(f"c10.u.inv_mod2k_vartime {n} {hx(a)} {k}")
+    # Uint::inv_mod (CRT over s·2^k: its 2^k part is inv_mod2k) with k in the top quarter; each line runs a full safegcd
+    for n in (5, 7):
+        w = 64 * n
+        ks = {w - 1, w - 2, w - 64, 3 * w // 4 + 1} | {rng.randrange(3 * w // 4 + 1, w) for _ in range(4 if q else 24)}
+        for k in sorted(ks):
+            sb = w - k
+            for s in {1, 3 if sb >= 2 else 1, (rng.getrandbits(sb) | 1 | (1 << (sb - 1))) if sb >= 1 else 1}:
+                m = (s << k) % (1 << w)
+                if m == 0:
+                    continue
+                for a in (rng.getrandbits(w) | 1, (rng.getrandbits(w) | 1) * 3 % (1 << w), value(rng, n)):
+                    out(f"c10.u.inv_mod {n} {hx(a)} {hx(m)}")
+                out(f"c10.u.inv_mod_trait {n} {hx(rng.getrandbits(w) | 1)} {hx(m)}")
+        for m in (1 << (w - 1), 3 << (w - 2), 5 << (w - 3)):
+            out(f"c10.u.inv_mod {n} {hx(rng.getrandbits(w) | 1)} {hx(m)}")
+        out(f"c10.u.gcd {n} {hx(value(rng, n))} {hx(value(rng, n))}")
+        out(f"c10.u.inv_odd_mod {n} {hx(value(rng, n))} {hx(rng.getrandbits(w) | 1)}")
+    return L
 
 
 def hook_lines(tier, rng):
